@@ -746,6 +746,11 @@ class EvolutionSuperOperator(SuperOperator, TimeDependent, Saveable):
             if copy:
                 import copy
                 oper_ven = copy.copy(target)
+                # a copy made inside a basis context has to be registered
+                # so that it is transformed back on exit
+                cb = self.manager.get_current_basis()
+                if (cb != 0) and (oper_ven.get_current_basis() == cb):
+                    self.manager.register_with_basis(cb, oper_ven)
                 oper_ven.data = numpy.tensordot(self.data[ti, :, :, :, :],
                                                 target.data)
                 return oper_ven
